@@ -233,8 +233,8 @@ def ref_entry(entry, reg, server_version):
     elif target is None:
         return done("unknown-method", Exp("error", "unknown-method", eid, (-32601,), form=form))
     if not isinstance(target, Spec):
-        # public non-callable attribute used as a method: outside the stated cases
-        return done("non-callable", Exp("error", "non-callable", eid, (-32601, -32602), form=form))
+        # a name that resolves to a public attribute which is not callable names no method: unknown method
+        return done("non-callable", Exp("error", "non-callable", eid, (-32601,), form=form))
     bound = target.bind(args, kwargs)
     if bound is None:
         codes = (-32602,) if reg.mode == "default" else (-32603,)
